@@ -16,6 +16,9 @@ var harnesses = map[string]func(){
 	"C18Generate":     C18Generate,
 	"C15Run":          C15Run,
 	"T0Pipeline":      T0Pipeline,
+	"C17Selection":    C17Selection,
+	"C17NoInterface":  C17NoInterface,
+	"C09Scoping":      C09Scoping,
 	"C11MarkerSubstitution": C11MarkerSubstitution,
 	"C11ExtractComments":    C11ExtractComments,
 	"C13ImportTable":        C13ImportTable,
